@@ -21,9 +21,36 @@ use verif_shim::sched::{run_controlled, Abort, Decision, Event, ExecResult, Outc
 use verif_shim::session::Session;
 use verif_shim::std_shim::sync::mpsc::channel;
 
-const K: usize = 2;
+
 /// Preemption bound meaning "no bound": every schedule is explored.
 const UNBOUNDED: usize = 99;
+
+impl Scenario {
+    fn k(&self) -> usize {
+        if self.bigk {
+            300
+        } else {
+            2
+        }
+    }
+    fn h(&self) -> SparseMatrix {
+        if !self.bigk {
+            return h35();
+        }
+        // 3 x 303 staircase code: information column j on check j % 3
+        let mut h = SparseMatrix::new(3, 303);
+        for j in 0..300 {
+            h.insert(j % 3, j);
+        }
+        for i in 0..3 {
+            h.insert(i, 300 + i);
+            if i > 0 {
+                h.insert(i, 300 + i - 1);
+            }
+        }
+        h
+    }
+}
 
 fn h35() -> SparseMatrix {
     // 3 x 5 staircase code (k = 2)
@@ -68,6 +95,8 @@ struct Scenario {
     inject: Inject,
     /// endpoint drops are scheduling points of their own (validation of the default granularity)
     drop_points: bool,
+    /// a 3 x 303 code (k = 300) instead of the 3 x 5 one: frames can carry more than 255 bit errors
+    bigk: bool,
 }
 
 impl Scenario {
@@ -82,6 +111,13 @@ impl Scenario {
             1 => vec![e1, ok(2 + w), fd2],
             2 => vec![fd, e2, ok(4)],
             3 => vec![e2, ok(1), ok(2 + w), e1],
+            // script 5 (3 x 303 code): frames with 256, 0, 257 (false decode) and 255 bit errors
+            5 => vec![
+                Frame { iterations: 8, success: false, flips: 256, panic: false },
+                ok(1 + w),
+                Frame { iterations: 5, success: true, flips: 257, panic: false },
+                Frame { iterations: 6, success: false, flips: 255, panic: false },
+            ],
             // script 4: only worker 0 ever produces frame errors; the others decode correctly for ever
             _ => {
                 if w == 0 {
@@ -186,11 +222,11 @@ fn run_once(scn: &Arc<Scenario>, prefix: &[usize]) -> ExecResult<Observed> {
         let inter: Option<isize> = if scn2.inject == Inject::InterleaverPanic { Some(2) } else { None };
         let ret = std::panic::catch_unwind(std::panic::AssertUnwindSafe(|| {
             if scn2.inject == Inject::Psk8Panic {
-                BerTest::<Psk8, ScriptFactory>::new(h35(), factory, punct.as_deref(), inter, scn2.errors, 10, &ebn0s, Some(reporter), scn2.bch)
+                BerTest::<Psk8, ScriptFactory>::new(scn2.h(), factory, punct.as_deref(), inter, scn2.errors, 10, &ebn0s, Some(reporter), scn2.bch)
                     .map_err(|e| e.to_string())
                     .and_then(|t| t.run().map_err(|e| e.to_string()))
             } else {
-                BerTest::<Bpsk, ScriptFactory>::new(h35(), factory, punct.as_deref(), inter, scn2.errors, 10, &ebn0s, Some(reporter), scn2.bch)
+                BerTest::<Bpsk, ScriptFactory>::new(scn2.h(), factory, punct.as_deref(), inter, scn2.errors, 10, &ebn0s, Some(reporter), scn2.bch)
                     .map_err(|e| e.to_string())
                     .and_then(|t| t.run().map_err(|e| e.to_string()))
             }
@@ -260,7 +296,8 @@ fn feq(a: f64, b: f64) -> bool {
     (a.is_nan() && b.is_nan()) || a.to_bits() == b.to_bits()
 }
 
-fn stats_match(s: &Statistics, f: &Fold, bch: u64, ebn0: f32) -> Result<(), String> {
+#[allow(non_snake_case)]
+fn stats_match(s: &Statistics, f: &Fold, bch: u64, ebn0: f32, K: usize) -> Result<(), String> {
     let n = f.n as f64;
     if s.ebn0_db != ebn0 {
         return Err(format!("Eb/N0 {} reported for the point {}", s.ebn0_db, ebn0));
@@ -380,7 +417,7 @@ fn judge(scn: &Scenario, res: &ExecResult<Observed>) -> Result<Judged, String> {
                 if f.stop_count(scn.bch) < scn.errors {
                     return Err(format!("round {}: run() returned Ok after only {} of the {} required frame errors were available", round, f.stop_count(scn.bch), scn.errors));
                 }
-                stats_match(&stats[round], &f, scn.bch, ebn0).map_err(|e| format!("Eb/N0 point {}: {}", round, e))?;
+                stats_match(&stats[round], &f, scn.bch, ebn0, scn.k()).map_err(|e| format!("Eb/N0 point {}: {}", round, e))?;
                 // reports of this round
                 let mine: Vec<&&Statistics> = stats_reports.iter().skip(rep_idx).take_while(|s| s.ebn0_db == ebn0).collect();
                 rep_idx += mine.len();
@@ -394,7 +431,7 @@ fn judge(scn: &Scenario, res: &ExecResult<Observed>) -> Result<Judged, String> {
                         return Err(format!("point {}: {} statistics reports for {} consumed frames with a zero report interval", round, mine.len(), prefix_folds.len()));
                     }
                     for (s, pf) in mine.iter().zip(prefix_folds.iter()) {
-                        stats_match(s, pf, scn.bch, ebn0).map_err(|e| format!("intermediate report of point {}: {}", round, e))?;
+                        stats_match(s, pf, scn.bch, ebn0, scn.k()).map_err(|e| format!("intermediate report of point {}: {}", round, e))?;
                     }
                 } else if mine.len() != 1 {
                     return Err(format!("point {}: {} statistics reports with a one-hour interval (expected the final one only)", round, mine.len()));
@@ -597,6 +634,7 @@ fn scenarios(thorough: bool) -> Vec<(Scenario, Vec<usize>)> {
             budget: 0,
             inject,
             drop_points: false,
+            bigk: false,
         };
         // frame budget: enough frames for any single worker to supply the required errors on
         // its own (so the collector can always finish), plus the requested slack
@@ -684,6 +722,10 @@ fn scenarios(thorough: bool) -> Vec<(Scenario, Vec<usize>)> {
     add(3, 1, 0, false, 1, 4, Inject::None, vec![0], 300);
     add(2, 1, 0, false, 1, 4, Inject::None, vec![0], 1100);
     add(2, 2, 1, false, 1, 0, Inject::None, vec![0], 300);
+    // frames with more than 255 bit errors (k = 300), outer-code thresholds at 255 / 256
+    for (w, e, bch, bound) in [(1usize, 2u64, 0u64, UNBOUNDED), (1, 1, 255, UNBOUNDED), (1, 2, 256, 3), (2, 2, 0, 1), (2, 1, 256, 1)] {
+        add(w, e, bch, w == 1, 1, 5, Inject::None, vec![bound], 0);
+    }
     // zero required frame errors: the point ends without consuming a frame (ratios are 0/0)
     for w in 1..=3 {
         add(w, 0, 0, true, 1, 0, Inject::None, vec![if w == 3 { 2 } else { 3 }], 1);
@@ -692,6 +734,13 @@ fn scenarios(thorough: bool) -> Vec<(Scenario, Vec<usize>)> {
     // four workers
     add(4, 1, 0, true, 1, 0, Inject::None, vec![if t { 2 } else { 1 }], 0);
     add(4, 2, 1, false, 1, 1, Inject::None, vec![1], 0);
+    // script 5 runs on the k = 300 code
+    for (s, _) in v.iter_mut() {
+        if s.script == 5 {
+            s.bigk = true;
+            s.id = format!("{}-k300", s.id);
+        }
+    }
     // the same scenarios with endpoint drops as scheduling points of their own: outcomes must be
     // judged correct there too (validates the default granularity, see DESIGN.md 10.3)
     let dp: Vec<(Scenario, Vec<usize>)> = v
@@ -712,6 +761,7 @@ fn scenarios(thorough: bool) -> Vec<(Scenario, Vec<usize>)> {
             budget: errors as usize + 1,
             inject,
             drop_points: dp,
+            bigk: false,
         };
         v.push((s, bounds));
     };
